@@ -26,6 +26,7 @@ instance {α : Type} : Inhabited (Col α) := ⟨⟨.list, []⟩⟩
 
 abbrev Batch (α : Type) := List (Col α)
 
+set_option linter.unusedVariables false in
 /-- `more_itertools.sliced(seq, n)` (n > 0): consecutive slices of length `n`,
 the last one possibly shorter, none for an empty sequence. -/
 def sliced {α : Type} (n : Nat) (xs : List α) : List (List α) :=
